@@ -358,7 +358,7 @@ theorem fitInit_some {family : Family} {x y : List α} {weights offsets : Option
     P.x = x ∧ P.y = y ∧ P.n = y.length ∧ isMatrix x y.length = some P.p ∧ isDesign x y.length = some true ∧
     P.weights.length = y.length ∧ (∀ w, weights = some w → P.weights = w) ∧
     (weights = none → P.weights = List.replicate y.length 1) ∧
-    st0.nIter = 0 ∧ st0.pd = none ∧ st0.coef = mean y :: List.replicate (P.p - 1) 0 := by
+    st0.nIter = 0 ∧ st0.pd = none ∧ st0.coef = initialIntercept family y :: List.replicate (P.p - 1) 0 := by
   unfold fitInit at h
   simp only [Option.bind_eq_bind, Option.bind_eq_some_iff] at h
   obtain ⟨p, hp, d, hd, h⟩ := h
@@ -646,6 +646,20 @@ theorem deviance_perm (f : Family) (y mu : List α) (hy : y.length = n) (hmu : m
 theorem mean_perm (y : List α) (hy : y.length = n) : mean (permVec σ y) = mean y := by
   unfold mean
   rw [sum8_eq, sum8_eq, permVec_sum σ y hy, permVec_length, hy]
+
+/-- **initialIntercept_perm.** The start value (F51: `mean(y)` resp. `ln(mean(y))`) does not depend on the order of the
+observations. -/
+theorem initialIntercept_perm (f : Family) (y : List α) (hy : y.length = n) :
+    initialIntercept f (permVec σ y) = initialIntercept f y := by
+  unfold initialIntercept
+  rw [mean_perm σ y hy]
+
+/-- the start value is the link of the mean response for the identity and the log link -/
+theorem initialIntercept_table (y : List α) :
+    initialIntercept .gaussian y = mean y ∧ initialIntercept .bernoulli y = mean y ∧
+    initialIntercept .poisson y = Transc.ln (mean y) ∧ initialIntercept .quasiPoisson y = Transc.ln (mean y) ∧
+    initialIntercept .gamma y = Transc.ln (mean y) ∧ initialIntercept .exponential y = Transc.ln (mean y) :=
+  ⟨rfl, rfl, rfl, rfl, rfl, rfl⟩
 
 end perm
 
